@@ -244,6 +244,15 @@ func c11Run(u *Unit) {
 			}
 			s.ZK.Put("operator", NS+"/recovery/"+h, "null")
 		case "stale_master":
+			if sp.Second {
+				// the host is first away for longer than the inactivation delay (evicted from the list), and comes back
+				// without its replication configuration
+				w.Crash(h)
+				s.WaitUntil(40*time.Second, time.Second, func() bool { return !contains(s.ActiveNodes(), h) })
+				time.Sleep(3 * time.Second)
+				w.Restart(h)
+				sc.Cover("stale-master-evicted-first")
+			}
 			w.Manual(h, "replication configuration lost", func(x *world.Server) {
 				x.Source, x.IORun, x.SQLRun = "", false, false
 				x.ReadOnly, x.SuperRO = sp.RO, sp.RO
@@ -323,5 +332,5 @@ func init() {
 		Floor: func(string) []string {
 			return []string{"marked-by:daemon", "marked-by:operator", "cleared-by-own-daemon", "mark-kept", "resetup-file-written", "stale-master-marked", "old-master-marked-by-failover", "switch-to-marked-host-filed"}
 		},
-		Rule: "families: (lifecycle) a marked host shaped by relation of its transaction set to the master's {behind, equal, ahead, diverged} x replication {running, stopped, error, none} x read-only x resetup file present x stuck semi-sync commits x a switch request naming it x resetup tool; (stale_master) a replica loses its replication configuration; (failover_return) the master dies, is failed over and returns clean or with unreplicated transactions; every deletion of a mark is judged on ground truth at that instant, every list write and promotion against the marks, and a host that checks itself while dirty must produce its resetup file; distinct by the cover tuple"})
+		Rule: "families: (lifecycle) a marked host shaped by relation of its transaction set to the master's {behind, equal, ahead, diverged} x replication {running, stopped, error, none} x read-only x resetup file present x stuck semi-sync commits x a switch request naming it x resetup tool; (stale_master) a replica loses its replication configuration, in a third of the shapes after it had been away long enough to be evicted from the list; (failover_return) the master dies, is failed over and returns clean or with unreplicated transactions; every deletion of a mark is judged on ground truth at that instant, every list write and promotion against the marks, and a host that checks itself while dirty must produce its resetup file; distinct by the cover tuple"})
 }
